@@ -211,7 +211,9 @@ def drive_calibrator(desc, sched, env, rec, losses, queues, alive_fn):
     sched.get_next_sampler, sched.update = next_sampler, update
     with quiet():
         cal = Calibrator(loss_function=MinkowskiLoss(p=1), real_data=np.zeros((1, 1)), model=MM.Scripted(vals), parameters_bounds=[[0.0], [1.0]],
-                         parameters_precision=[0.001], ensemble_size=1, scheduler=sched, verbose=False, random_state=case_seed(desc) % 99991, n_jobs=1)
+                         parameters_precision=[0.001], ensemble_size=1, scheduler=sched, verbose=bool(desc["k"] % 2), random_state=case_seed(desc) % 99991, n_jobs=1,
+                         # with a loss sequence that reaches exactly 0.0 the run converges: the stopping batch is reported to the scheduler once
+                         convergence_precision=3 if desc["loss"] == "hits_zero" else None)
     for s, nb in enumerate(desc["shape"]):
         state["s"] = s
         rec("session_start", s)
